@@ -636,6 +636,36 @@ def t04_fmask(run, fx):
         run.ok(rule, "%d flags, %d rows, one row per flag, tags spelled as the flags" % (len(flags), len(rows)))
 
 
+def t04_fvr(run, fx):
+    import reach
+    rule = "T04-FVR"
+    run.rule(rule, "feature variations: the first record whose condition set matches is the one that is used - with its substitution table, or with none "
+                   "when its FeatureTableSubstitution offset is NULL (OpenType, FeatureVariations table). A record may therefore be passed over only "
+                   "because its conditions do not hold: in FeatureVariationRecord::matches every path to the result `no match` (Ok(None)) passes the "
+                   "evaluation of the condition set (ConditionSet::matches)")
+    b = fx.body("layout::FeatureVariationRecord::matches")
+    if b is None:
+        return run.anchor_missing(rule, "layout::FeatureVariationRecord::matches")
+    prov = sym.Prov(b)
+    nones = []
+    for bi, blk in enumerate(b.blocks):
+        if not b.reachable(bi):
+            continue
+        for st in blk["s"]:
+            if st["k"] == "assign" and st["p"]["l"] == 0 and not st["p"]["p"] and st["rv"]["k"] == "agg" and st["rv"].get("vname") == "Ok":
+                pay = sym.strip(prov.op(st["rv"]["fields"][0])) if st["rv"]["fields"] else ("?",)
+                if (pay[0] == "agg" and pay[2] == "None") or pay[0] == "c":
+                    nones.append(bi)
+    conds = [bi for bi, t in b.calls() if re.search(r"ConditionSet(::<[^>]*>)?::matches$", str(t["callee"].get("path") or ""))]
+    if not nones or not conds:
+        return run.anchor_missing(rule, "Ok(None) result / ConditionSet::matches call in FeatureVariationRecord::matches (%d/%d)" % (len(nones), len(conds)))
+    if reach.must_pass(b, 0, nones, conds):
+        run.ok(rule, "FeatureVariationRecord::matches: %d `no match` result(s), each after the condition set was evaluated" % len(nones))
+    else:
+        run.fail(rule, "fvr:skip", "FeatureVariationRecord::matches can report `no match` without evaluating the record's condition set: a record whose conditions hold "
+                 "is passed over and a later record is used instead", "%s:%s" % (b.file, b.line))
+
+
 def t04_cond(run, fx):
     rule = "T04-COND"
     run.rule(rule, "feature variations: a condition holds for filterRangeMinValue <= coordinate <= filterRangeMaxValue, both ends included "
@@ -907,6 +937,7 @@ def check(run, fx, tier, floors=True):
     ignored.run_for(run, fx, 'C04', floors)
     if floors or fx.body("layout::ConditionTable::matches") is not None:
         t04_cond(run, fx)
+        t04_fvr(run, fx)
     import speclayout
     speclayout.rule_layouts(run, fx, "T04-LAYOUT", ["layout"], floors)
     speclayout.rule_records(run, fx, "T04-REC", ['layout'], floors)
